@@ -148,7 +148,7 @@ def parse_res(line):
     d = {"id": sx[1], "trace": sx_field(sx[2:], "trace") or [], "status": "ok",
          "touched": [int(x) for x in (sx_field(sx[2:], "touched") or [])],
          "missed": (sx_field(sx[2:], "missed") or ["?"])[0], "typed": (sx_field(sx[2:], "typed") or ["?"])[0],
-         "keysdistinct": (sx_field(sx[2:], "keysdistinct") or ["?"])[0]}
+         "keysdistinct": (sx_field(sx[2:], "keysdistinct") or ["?"])[0], "front": (sx_field(sx[2:], "front") or ["?"])[0]}
     if sx_field(sx[2:], "err") is not None:
         d["status"] = "err"
     elif sx_field(sx[2:], "panic") is not None:
@@ -275,6 +275,12 @@ def engine_projection(ctx, results, what_checks):
         if len(ctx.samples) < 3 and inp.get("patches") and any(t.startswith("k") for t in impl["trace"]):
             ctx.sample({"id": inp["id"], "patch": inp["patches"][0][:600], "src": (inp.get("src") or "")[:600],
                         "trace": tr})
+        ctx.count("front:" + str(impl.get("front")))
+        if impl.get("front") == "0" and ("content" in what_checks or "where" in what_checks):
+            # the pattern the engine compiled is not what the patch text denotes (front end: sectioning, '-'/'+' split,
+            # "..." rewriting, parsing); decided against an independent parse of the generator's own text of each side
+            ctx.violation("the pattern compiled from the patch differs from the pattern its text denotes (independent parse of each "
+                          "side of the change)", replay_payload(inp, impl, model, {"problems": ["front-end: compiled pattern differs from the patch text"]}))
         ctx.count("typed:" + str(model.get("typed")))
         if model.get("typed") == "0" and "where" in what_checks:
             # the theorems about instances assume well-typed trees in parser normal form (Spec/Typing.lean)
@@ -1990,7 +1996,9 @@ def c19(ctx):
 # --- C13 -------------------------------------------------------------------
 WORD = lambda w: re.compile(r"(?<![A-Za-z0-9_])" + re.escape(w) + r"(?![A-Za-z0-9_])")
 
-def layout_variant(rng, patch):
+GO_KEYWORDS = set("break default func interface select case defer go map struct chan else goto package switch const fallthrough if range type continue for import return var nil true false iota _ int string bool byte error any".split())
+
+def layout_variant(rng, patch, file_words=None):
     """one meaning-preserving re-layout of a single-change patch; returns (text, [transformations])"""
     desc, header, meta, body = split_patch_text(patch)
     done = []
@@ -2029,9 +2037,14 @@ def layout_variant(rng, patch):
             header = "@ " + rng.choice(["renamed", "x1", "_tmp"]) + " @"
             done.append("name")
     elif t == 3:    # rename metavariables consistently (not the import-name one)
-        names = re.findall(r"\b(mv\d+|id\d+)\b", "\n".join(meta))
+        names = re.findall(r"\b(mv\d+|id\d+|mvs)\b", "\n".join(meta))
+        # half of the time the new names are words that occur in the target file as ordinary code (fields, variables,
+        # functions) but nowhere in the patch: a metavariable's spelling must not matter even then
+        words = set(re.findall(r"[A-Za-z_]\w*", "\n".join(desc + [header] + meta + body)))
+        pool = [w for w in (file_words or []) if w not in words and w not in GO_KEYWORDS]
+        rng.shuffle(pool)
         for n in sorted(set(names)):
-            new = ("q" + n + "z")
+            new = pool.pop() if pool and rng.random() < 0.5 else ("q" + n + "z")
             meta = [WORD(n).sub(new, l) for l in meta]
             body = [WORD(n).sub(new, l) for l in body]
         if names:
@@ -2068,6 +2081,15 @@ def layout_variant(rng, patch):
     text = "\n".join(desc + [header] + meta + ["@@"] + body) + "\n"
     return text, done
 
+RENAME_TABLE = [
+    ("@@\nvar {M} expression\n@@\n-{M} == {M}\n+true\n",
+     "package a\n\nfunc f(p, q T, x, y, e int) bool {\n\tif p.x == p.y {\n\t\treturn q.e == q.e\n\t}\n\treturn g(x) == g(y) || h[e] == h[x]\n}\n"),
+    ("@@\nvar {M} expression\n@@\n-pair({M}, {M})\n+one({M})\n",
+     "package a\n\nfunc f(a, b []int, i, j, k int) {\n\tpair(a[i], a[j])\n\tpair(b[k], b[k])\n\tpair(func(i int) int { return i }, func(j int) int { return j })\n}\n"),
+    ("@@\nvar {M} identifier\n@@\n-{M}.Lock()\n-defer {M}.Unlock()\n+defer guard({M})()\n",
+     "package a\n\nfunc f(mu, mv Mutex) {\n\tmu.Lock()\n\tdefer mv.Unlock()\n}\n\nfunc g(mu Mutex) {\n\tmu.Lock()\n\tdefer mu.Unlock()\n}\n"),
+]
+
 QUOTE_TABLE = [
     ("@@\nvar s expression\n@@\n if s == \"`\" {\n-\tfoo(s)\n+\tbar(s)\n }\n",
      "package a\n\nfunc f(t string) {\n\tif t == \"`\" {\n\t\tfoo(t)\n\t}\n}\n"),
@@ -2101,7 +2123,8 @@ def c13(ctx):
     meta_info = {}
     for i, c in enumerate(cases):
         try:
-            variants = [layout_variant(rng, c["patches"][0]) for _ in range(3)]
+            fw = sorted(set(re.findall(r"[A-Za-z_]\w*", c["src"])))
+            variants = [layout_variant(rng, c["patches"][0], fw) for _ in range(3)]
         except Exception:
             continue
         batch.append({"id": f"o{i}", "patches": c["patches"], "src": c["src"]})
@@ -2118,6 +2141,13 @@ def c13(ctx):
             text = "\n".join(qlines[:k] + ["# a remark"] + qlines[k:]) + "\n"
             batch.append({"id": f"q{qi}v{k}", "patches": [text], "src": qs})
             meta_info[f"q{qi}v{k}"] = (f"q{qi}", [f"comment-line-after-line-{k}"])
+    # directed table: a repeated metavariable spelled like a word that occurs in the code it captures
+    for ri, (tmpl, rsrc) in enumerate(RENAME_TABLE):
+        base_p = tmpl.replace("{M}", "zq9")
+        batch.append({"id": f"r{ri}", "patches": [base_p], "src": rsrc})
+        for sp in sorted(set(re.findall(r"[A-Za-z_]\w*", rsrc)) - GO_KEYWORDS - set(re.findall(r"[A-Za-z_]\w*", base_p))):
+            batch.append({"id": f"r{ri}v{sp}", "patches": [tmpl.replace("{M}", sp)], "src": rsrc})
+            meta_info[f"r{ri}v{sp}"] = (f"r{ri}", [f"metavariable-spelled-{sp}"])
     d = ctx.scratch("c13")
     p = os.path.join(d, "in.jsonl")
     with open(p, "w") as f:
